@@ -17,7 +17,11 @@ def run_cases(ctx, cases, label, scratch):
             key = GT.order_key_for(c.meta.get('order_seed', 0))
             paths = c.tree.realise(b, s)
             c.meta['paths'] = None
-            r = ET.run_impl(b, c.top, c.opts, c.allow_create, c.allow_xdev, c.ops, key)
+            real_faults = []
+            for prim, ino, en in c.faults:
+                st = os.stat(paths[ino])
+                real_faults.append((prim, (st.st_dev, st.st_ino), en))
+            r = ET.run_impl(b, c.top, c.opts, c.allow_create, c.allow_xdev, c.ops, key, real_faults)
         except Exception as e:
             r = ['harness-error', repr(e)]
         finally:
@@ -89,3 +93,285 @@ def c01(ctx):
     ctx.count('tree:verify', len(cases), len({json.dumps([c.meta['files'], c.meta['manifests'], c.meta['mutations'], c.ops], default=str) for c in cases}),
               samples=[{'files': cases[0].meta['files'], 'manifests': cases[0].meta['manifests'],
                         'mutations': cases[0].meta['mutations'], 'ops': cases[0].ops, 'impl': res[0][1]}])
+
+
+# --------------------------------------------------------------------------- verdict classification
+def success_of(x):
+    """True/False verdict of one op result, None if not a verdict"""
+    if x[0] == 'err':
+        return False
+    if x[0] == 'ok' and isinstance(x[1], list) and len(x[1]) == 2 and x[1][0] in (0, 1) and isinstance(x[1][1], list):
+        return bool(x[1][0])
+    return True
+
+
+def reclassify(ctx, prop_text):
+    """disagreements in which implementation and reference model differ in the success/failure verdict of an
+    operation are violations of the property itself (the model is the reference: its theorems + this engine)"""
+    new = []
+    for kind, desc, rp in ctx.violations:
+        if kind == 'correspondence' and isinstance(rp.get('impl'), list) and isinstance(rp.get('model'), list) \
+                and rp['impl'][0] == 'ok' and rp['model'][0] == 'ok':
+            for a, b in zip(rp['impl'][1], rp['model'][1]):
+                if a != b:
+                    if success_of(a) != success_of(b) or (a[0] == 'ok' and b[0] == 'ok' and a[1] != b[1]):
+                        kind = 'spec'
+                        desc = prop_text + f': implementation answered {str(a)[:200]}, the reference answer is {str(b)[:200]}'
+                    break
+        new.append((kind, desc, rp))
+    ctx.violations[:] = new
+
+
+def c01_impl(ctx, n_quick, n_thorough, gen, label, prop_text):
+    quick = ctx.tier == 'quick'
+    r = ctx.rng(label)
+    n = n_quick if quick else n_thorough
+    with ET.Scratch() as sc:
+        cases = [gen(r) for _ in range(n)]
+        res = run_cases(ctx, cases, label, sc)
+    reclassify(ctx, prop_text)
+    kinds = {}
+    for c, i, m in res:
+        if i[0] != 'ok':
+            kinds[str(i[0])] = kinds.get(str(i[0]), 0) + 1
+            continue
+        for x in i[1]:
+            k = 'ok' if x[0] == 'ok' else x[1][0] + (':' + ','.join(map(str, x[1][-1])) if x[1][0] == 'ManifestMismatch' else '')
+            k = k if len(k) < 40 else k[:40]
+            kinds[k] = kinds.get(k, 0) + 1
+    top = dict(sorted(kinds.items(), key=lambda kv: -kv[1])[:25])
+    ctx.count(label, len(cases),
+              len({json.dumps([c.meta.get('files'), c.meta.get('manifests'), c.meta.get('mutations'), c.ops, c.faults, c.meta.get('k')], default=str) for c in cases}),
+              samples=[{'files': cases[0].meta.get('files'), 'manifests': cases[0].meta.get('manifests'),
+                        'mutations': cases[0].meta.get('mutations'), 'ops': cases[0].ops, 'impl': res[0][1]}],
+              dist={'outcomes': top})
+    return res
+
+
+def c01(ctx):
+    import p_py
+    p_py.py_units(ctx, ctx.tier == 'quick')
+    c01_impl(ctx, 1500, 25000, gen_verify_case, 'tree:verify',
+             'verification verdict differs from the reference (C01: success iff every entry matches and every walked file is covered)')
+
+
+# --------------------------------------------------------------------------- C07
+def gen_keepgoing_case(r):
+    c = GT.Case()
+    t, files, written = GT.build_consistent(r, c, nfiles=r.randint(3, 9))
+    muts = []
+    for _ in range(r.randint(2, 6)):
+        muts.append(GT.mutate(r, c, files, written, r.choice(['content-same-size', 'content-other-size', 'delete', 'stray',
+                                                                'file-to-dir', 'stray', 'delete', 'fifo', 'stray-hidden',
+                                                                'dir-to-file', 'manifest-delete', 'dangling-link'])))
+    c.meta['mutations'] = muts
+    c.meta['order_seed'] = r.randint(0, 9)
+    paths = [''] + [d for d in c.meta['dirs'] if d]
+    c.ops = [['verify', r.choice(paths + ['', '']), r.choice([1, 1, 2, 3, 4, 4]), []]]
+    if r.random() < 0.3:
+        c.ops.append(['verify', '', r.choice([1, 4]), []])
+    return c
+
+
+def c07(ctx):
+    res = c01_impl(ctx, 1500, 25000, gen_keepgoing_case, 'tree:keep-going',
+                   'keep-going verification: handler calls / result differ from the reference (C07: every offending path once, '
+                   'result false iff a call answered False)')
+    multi = sum(1 for c, i, m in res if i[0] == 'ok' and any(x[0] == 'ok' and isinstance(x[1], list) and len(x[1]) == 2
+                                                              and isinstance(x[1][1], list) and len(x[1][1]) >= 2 for x in i[1]))
+    ctx.cov['engines']['tree:keep-going']['cases_with_two_or_more_reports'] = multi
+    # CLI exit status of `gemato verify --keep-going` on a sample
+    cli_keep_going(ctx)
+
+
+def cli_keep_going(ctx):
+    import p_pgp
+    r = ctx.rng('c07cli')
+    n = bad = 0
+    with ET.Scratch() as sc:
+        for _ in range(60 if ctx.tier == 'quick' else 600):
+            c = gen_keepgoing_case(r)
+            b, s = sc.fresh()
+            try:
+                c.tree.realise(b, s)
+                key = GT.order_key_for(c.meta['order_seed'])
+                with ET.ScandirOrder(key):
+                    rc = p_pgp.run_cli(['gemato', 'verify', '--keep-going', '--no-openpgp-verify', b])
+                    lib = ET.run_impl(b, 'Manifest', c.opts, False, True, [['verify', '', 1, []]], key)
+            finally:
+                sc.cleanup(b, s)
+            n += 1
+            if lib[0] == 'ok' and lib[1] and lib[1][0][0] == 'ok':
+                want = 0 if lib[1][0][1][0] == 1 else 1
+                if rc != want:
+                    bad += 1
+                    ctx.violation('spec', f'gemato verify --keep-going exited {rc} but the library reported '
+                                  f'{len(lib[1][0][1][1])} failures', {'tree': describe(c.tree), 'mutations': c.meta['mutations']})
+            elif isinstance(rc, int) and rc == 0:
+                ctx.violation('spec', 'gemato verify --keep-going exited 0 although the library raised',
+                              {'tree': describe(c.tree), 'lib': lib})
+    ctx.count('tree:cli-keep-going', n, n)
+
+
+# --------------------------------------------------------------------------- C02
+def chain_case(r):
+    c = GT.Case()
+    D = r.randint(1, 5)
+    dirs = ['']
+    for i in range(1, D + 1):
+        dirs.append((dirs[-1] + '/' if dirs[-1] else '') + r.choice(['d', 'sub', 'x y', 'é']) + str(i))
+    fmts = [''] + [r.choice(GT.FORMATS) for _ in range(D)]
+    mnames = ['Manifest' + ('.' + f if f else '') for f in fmts]
+    extra_level = r.choice([None] + list(range(0, D + 1)))     # a level with a second Manifest in the same directory
+    contents0 = {dirs[D] + '/f': b'payload data\n'}
+    for i in range(0, D + 1):
+        contents0[(dirs[i] + '/' if dirs[i] else '') + 'g%d' % i] = b'file at level %d\n' % i
+    tamper = r.choice(['change', 'change-same-size', 'add', 'remove'])
+    contents1 = dict(contents0)
+    target = dirs[D] + '/f'
+    if tamper == 'change':
+        contents1[target] = b'evil payload, longer\n'
+    elif tamper == 'change-same-size':
+        contents1[target] = b'payload dbta\n'
+    elif tamper == 'add':
+        contents1[dirs[D] + '/added'] = b'new file\n'
+        target = dirs[D] + '/added'
+    else:
+        del contents1[target]
+    hs = r.sample(GT.GOOD_HASHES, r.choice([0, 1, 1, 2, 3]))
+    if r.random() < 0.15:
+        hs = hs + [r.choice(['STREEBOG512', 'FOO', 'WHIRLPOOL', 'sha1'])]
+    if hs == [] or r.random() < 0.3:
+        fmts = [''] * (D + 1)           # plain Manifests: same-size tampering keeps their size too
+        mnames = ['Manifest'] * (D + 1)
+
+    def build(contents, seed):
+        rr = __import__('random').Random(seed)
+        t = GT.Tree()
+        for d in dirs[1:]:
+            t.add_dir(d)
+        for p, data in contents.items():
+            t.add_file(p, data)
+        mdata = {}
+        for i in range(D, -1, -1):
+            lines = []
+            for p, data in sorted(contents.items()):
+                if os.path.dirname(p) == dirs[i]:
+                    lines.append(ET.entry_line('DATA', os.path.basename(p), data, hs))
+            if i == D:
+                lines.append('DIST dist.tar 3 SHA1 ' + __import__('hashlib').sha1(b'abc').hexdigest())
+            if i < D:
+                child = dirs[i + 1] + '/' + mnames[i + 1]
+                rel = os.path.relpath(child, dirs[i]) if dirs[i] else child
+                lines.append(ET.entry_line('MANIFEST', rel, mdata[i + 1], hs))
+            if extra_level == i:
+                half = len(lines) // 2
+                ename = 'Manifest.files' + ('.' + fmts[i] if fmts[i] else '')
+                edata = ('\n'.join(lines[:half]) + '\n' if half else '').encode()
+                if fmts[i]:
+                    edata = ET.compress(fmts[i], edata)
+                t.add_file((dirs[i] + '/' if dirs[i] else '') + ename, edata)
+                mdata[('x', i)] = edata
+                lines = lines[half:] + [ET.entry_line('MANIFEST', ename, edata, hs)]
+            text = ('\n'.join(lines) + '\n').encode()
+            if fmts[i]:
+                text = ET.compress(fmts[i], text)
+            mdata[i] = text
+            t.add_file((dirs[i] + '/' if dirs[i] else '') + mnames[i], text)
+        return t, mdata
+    t0, m0 = build(contents0, 1)
+    t1, m1 = build(contents1, 1)
+    k = r.randint(1, D)             # Manifests at levels >= k are the attacker's, those above are untouched
+    for i in range(0, k):
+        p = (dirs[i] + '/' if dirs[i] else '') + mnames[i]
+        d, name = os.path.split(p)
+        t1.link(t1.lookup(d), name, t1.mkfile(1, m0[i]))
+        if extra_level == i:
+            ename = 'Manifest.files' + ('.' + fmts[i] if fmts[i] else '')
+            t1.link(t1.lookup(d), ename, t1.mkfile(1, m0[('x', i)]))
+    c.tree = t1
+    c.meta.update(dirs=dirs, files=sorted(contents1), manifests=[(dirs[i] + '/' if dirs[i] else '') + mnames[i] for i in range(D + 1)],
+                  mutations=[tamper], k=k, depth=D, order_seed=r.randint(0, 3), target=target)
+    api = r.choice(['verify', 'verify-sub', 'verify_path', 'assert_path_verifies', 'find_path_entry', 'find_dist_entry'])
+    if api == 'verify':
+        c.ops = [['verify', '', r.choice([0, 0, 1]), []]]
+    elif api == 'verify-sub':
+        c.ops = [['verify', dirs[r.randint(k, D)], 0, []]]
+    elif api == 'find_dist_entry':
+        c.ops = [['find_dist_entry', 'dist.tar', dirs[D]]]
+    else:
+        c.ops = [[api, target if tamper != 'remove' else dirs[D] + '/f']]
+    c.meta['api'] = api
+    # the link that must be found broken: the Manifest of level k as recorded at level k-1
+    c.meta['broken'] = (dirs[k] + '/' if dirs[k] else '') + mnames[k]
+    # unless the tampering left the level-k Manifest bytes unchanged (cannot happen: its content lists the file)
+    good = [h for h in hs if h in GT.GOOD_HASHES]
+    c.meta['changed'] = (len(m0[k]) != len(m1[k])) or (bool(good) and m0[k] != m1[k])
+    c.meta['unsupported'] = [h for h in hs if h not in GT.GOOD_HASHES]
+    return c
+
+
+def c02(ctx):
+    res = c01_impl(ctx, 1500, 25000, chain_case, 'tree:chain-tamper',
+                   'tampering below an untouched Manifest: result differs from the reference (C02)')
+    detected = 0
+    for c, i, m in res:
+        if not c.meta['changed'] or i[0] != 'ok' or not i[1]:
+            continue
+        x = i[1][0]
+        ok = (x[0] == 'err' and x[1][0] == 'ManifestMismatch' and x[1][1] == c.meta['broken']) or \
+             (x[0] == 'err' and x[1][0] == 'UnsupportedHash' and c.meta['unsupported']) or \
+             (c.meta['api'] == 'verify' and x[0] == 'ok' and x[1][0] == 0 and any(call[0] == c.meta['broken'] for call in x[1][1]))
+        # with the extra same-directory Manifest the file entry may live in Manifest.files: the broken link is then
+        # either Manifest or Manifest.files of level k
+        if not ok and x[0] == 'err' and x[1][0] == 'ManifestMismatch' and os.path.dirname(x[1][1]) == os.path.dirname(c.meta['broken']) \
+                and os.path.basename(x[1][1]).startswith('Manifest'):
+            ok = True
+        if ok:
+            detected += 1
+        else:
+            ctx.violation('spec', f'tampered {c.meta["target"]} below the untouched level {c.meta["k"] - 1} was not detected by '
+                          f'{c.meta["api"]}: {str(x)[:200]} (expected a mismatch for {c.meta["broken"]})',
+                          {'meta': {k: v for k, v in c.meta.items() if k != 'paths'}, 'ops': c.ops, 'impl': i, 'tree': describe(c.tree)})
+    ctx.cov['engines']['tree:chain-tamper']['tamperings_detected_at_the_broken_link'] = detected
+
+
+# --------------------------------------------------------------------------- C06
+ERRNOS = ['EACCES', 'EPERM', 'EIO', 'ENOMEM', 'ELOOP', 'ENOTDIR', 'EMFILE', 'ESTALE']
+
+
+def fault_case(r):
+    c = GT.Case()
+    t, files, written = GT.build_consistent(r, c, nfiles=r.randint(2, 7), allow_multi=False)
+    muts = []
+    if r.random() < 0.3:
+        muts.append(GT.mutate(r, c, files, written, r.choice(['stray', 'stray-hidden', 'file-symlink'])))
+    c.meta['mutations'] = muts
+    c.meta['order_seed'] = r.randint(0, 3)
+    # pick an object and a primitive
+    inos = [(i, n) for i, n in t.nodes.items()]
+    i, n = r.choice(inos)
+    if n['k'] == 'd':
+        prim = r.choice(['scandir', 'stat', 'open'])
+    else:
+        prim = r.choice(['open', 'fstat', 'read', 'open', 'read', 'all', 'all'])
+    en = r.choice(ERRNOS)
+    if prim == 'all':
+        # an object that cannot be accessed at all (e.g. behind an unsearchable directory)
+        c.faults = [[q, i, en] for q in ('open', 'stat', 'fstat', 'read', 'scandir')]
+    else:
+        c.faults = [[prim, i, en]]
+    c.meta['fault'] = [prim, i, en, n['k']]
+    paths = [''] + [d for d in c.meta['dirs'] if d]
+    c.ops = [['verify', r.choice(paths + ['', '']), r.choice([0, 0, 1]), r.choice([[], [], [1700000000]])]]
+    return c
+
+
+def c06(ctx):
+    res = c01_impl(ctx, 1500, 25000, fault_case, 'tree:faults',
+                   'with an injected I/O error the result differs from the reference (C06: the error or a mismatch, never success)')
+    hit = 0
+    for c, i, m in res:
+        if i[0] == 'ok' and i[1] and i[1][0][0] == 'err' and i[1][0][1][0] == 'OSError' and i[1][0][1][1] == c.faults[0][2]:
+            hit += 1
+    ctx.cov['engines']['tree:faults']['runs_ending_with_the_injected_error'] = hit
